@@ -26,7 +26,17 @@ RULE = ("histories of 1-30 operations on one System/Atoms pair (initial 1-6 atom
         "ndarray, nested list, tuple, non-contiguous / read-only ndarray, integer-typed whole numbers (int8..int64, uint8..uint64, bool for 0/1 floats, Python ints) or numpy scalars.  After "
         "every step the derived quantities (views, natoms, Atoms.natypes/atypes, System.symbols/masses/natypes/atypes, "
         "str(system), composition, pbc, df) are read in a generated order, with a generated subset of the per-type reads left "
-        "out, so that the order and absence of reads is part of the history.  Non-trivial: the history "
+        "out, so that the order and absence of reads is part of the history.  Cross-pollinated generator classes (see the comment "
+        "above LEVEL_TEXT): every array / Atoms / list handed out is kept in a ledger and re-judged bit for bit after every "
+        "later step, with calls on OTHER objects (operands and arguments of earlier operations, fresh one-atom objects built from "
+        "the defaults) riding on one step in seven; everything handed in is compared bit for bit after the call, then overwritten "
+        "in place by the caller and (arrays) re-used for a second call; values also come in float32 / float16 / big-endian dtypes "
+        "and the object under test itself stores narrow, unsigned and big-endian dtypes in a fifth of the histories; float values "
+        "also come near thresholds (whole number +- 2**-10...2**-38) and spanning 18 decades within one argument, every row "
+        "judged by its own rounding bound; all atoms are selected through exactly structured permutations (identity, mirror, "
+        "cyclic, halves, as list / slice / mask) and the object is assigned to itself through them; a second, enumerated clause "
+        "runs every option combination of every entry point and every ordered pair of 42 operations through the same oracles.  "
+        "Non-trivial: the history "
         "contains an extend* followed later by an indexed write, or a scaled extension, or a per-type assignment after "
         "the number of atom types grew")
 ASSUMPTIONS = ["numpy indexing/assignment semantics (including 'last value wins' for repeated indices) are correct",
@@ -34,12 +44,45 @@ ASSUMPTIONS = ["numpy indexing/assignment semantics (including 'last value wins'
                "coordinates are used so that the scaled writes are exact",
                "a System with zero atoms is outside the domain (atomman cannot compute natypes for it); empty selections are "
                "explored at the Atoms level only",
-               "float values are dyadic rationals, so model equality is exact equality"]
+               "float values are dyadic rationals, so model equality is exact equality",
+               "numpy copies an overlapping right-hand side before an indexed assignment (object assigned to itself through a permutation)",
+               "System.atoms_extend(safecopy=False) documents that objects may be shared with its input parameters, and the pbc setter "
+               "keeps a bool ndarray it is given (numpy.asarray): those inputs are compared after the call but not overwritten by the caller",
+               "atoms_prop(value=<Atoms>, scale=True) unscales the positions of the value it is given in place (tolerated since the first "
+               "version of this check: the value's pos is exempt from the inputs-unchanged comparison on that route)"]
+# Generator classes carried over from the other properties (seeded regressions, rounds 1-4), and where they live here:
+#  A  result ledger            Run.keep / judge_ledger: arrays, Atoms objects and key lists handed out (as the caller left them after
+#                              its own probe), operands and arguments of new-object operations; re-judged bit for bit after every
+#                              later step; op_side makes the "later calls on other objects"          labels ledger*, side:*
+#  B  caller-side mutation     Run.guarded (inputs bit-identical after the call: arrays, index objects, Atoms values, symbols /
+#                              masses / pbc lists, constructor arguments), Run.mutate_in (the caller overwrites them in place),
+#                              re-use of the overwritten array for a second call                     labels in_unchanged, mut:*
+#  C  storage / input dtypes   value form 7 (float32, float16, big-endian), STORAGE (the object under test stores uint8 / int8 /
+#                              uint16 / int16 / float32 / float16 / big-endian), refusal of atype 0 in unsigned dtypes; the
+#                              integer-like input dtypes (form 5) were there already                 labels af:narrow*, sd*, refuse:atype0:*
+#  D  working units            does not apply: nothing under C06 (Atoms / System per-atom accessors) converts units, has a default or
+#                              tolerance in working units, or caches anything derived from a unit; Atoms.model / System.model, which
+#                              do, belong to C10
+#  E  near-threshold values    Src mode 'tiny' (whole number +- 2**-10 ... 2**-38, exact in every route); the one tolerance in the
+#                              code under C06, numpy.allclose of the two boxes in atoms_ix[...] = System (a warning only), is
+#                              straddled by boxes differing by 2**-8 ... 2**-43 (op field dbox)      labels vm:tiny, near:box
+#  F  many decades             Src mode 'dec' (every row of one argument times its own 2**d, d = -30..30), rows judged by their own
+#                              rounding bound (r2c_tol, rowtol) and against the single-row call      labels vm:dec, dec:8*, scaled_get_rowwise
+#  G  exactly structured       index kind 'perm' (atoms_model.perm_index), self-assignment through it, extension by an Atoms with
+#                              exactly the same property set in the same / reversed order; (equal counts, -1, overlapping slices,
+#                              reversed property order were there already)                           labels idx:perm*, selfset_perm*, ext:*_order
+#  H  enumerated options       clause 'options' (options_cases): option grids of every entry point, constructor grid, all ordered
+#                              pairs (thorough: per-type-state triples); a_id spelling with value and scale added to the
+#                              interpreter                                                           labels h:*, opt:aid_*
 LEVEL_TEXT = ("Random edit histories (<= 30 steps) over every Atoms/System per-atom accessor named in the property, compared row by "
               "row after every step with an independent record-per-atom model, the derived quantities being read in a generated order "
               "(any subset of the per-type reads left out) and the values handed over in seven array_like forms; aliasing probed by mutating every array/object "
-              "handed out by the copying accessors and re-checking operands of extend/atoms_extend at the end of the history.")
-TECHNIQUE = "model-based stateful testing: record-per-atom model, invariants after every step, aliasing probes, refusal atomicity"
+              "handed out by the copying accessors and re-checking operands of extend/atoms_extend at the end of the history; "
+              "a bit-for-bit ledger of everything handed out and in, re-judged after every later step and after calls on other objects; "
+              "narrow / unsigned / big-endian storage and input dtypes, near-threshold values and 18 decades in one argument, exactly "
+              "structured selections; every option combination and every ordered pair of 42 operations enumerated.")
+TECHNIQUE = ("model-based stateful testing: record-per-atom model, invariants after every step, aliasing probes, result ledger, "
+             "inputs-unchanged comparison, refusal atomicity, enumerated option combinations")
 WALL = {'quick': 45, 'thorough': 600}
 
 KEY_SCALE = 'C06:atoms_extend:scale-true'
@@ -846,6 +889,10 @@ class Run:
         self.stepno = k
         self.labels.add('op:' + name)
         getattr(self, 'op_' + name)(op)
+        if op.get('side') is not None and name != 'side':
+            # classes A / B: in the same step, after the operation, a call on ANOTHER object (see op_side)
+            self.labels.add('op:side')
+            self.op_side(op['side'])
         self.check(df=(k % 5 == 4), rd=op.get('rd'))
 
     def refusal(self, fn, exc, msg, what):
@@ -1411,6 +1458,7 @@ class Run:
         atoms = s.atoms
         n = m.n
         if op.get('perm') is not None:
+            self.op_setself(dict(op, perm=None))        # (the overlapping-slice assignment first, as without this option)
             # class G: the object assigned to ITSELF through an exactly structured selection of all its atoms (identity, mirror
             # image, cyclic shift, swapped halves, ... written as list / slice / mask): numpy copies an overlapping right-hand
             # side first, so atom sel[i] receives the old atom i
@@ -1756,7 +1804,8 @@ SYMS = st.lists(st.sampled_from(['Al', 'Cu', 'Fe', 'O', 'H', 'Ni']), max_size=5)
 MASSV = st.one_of(st.none(), I(1, 240).map(lambda k: k / 4.0), I(1, 60))
 MASSES = st.lists(MASSV, max_size=5)
 # forms of a value argument (table above to_arg): two in ten integer-typed, spread over the ten variants of that form
-AF = st.sampled_from([f for f in (False, True, False, True, 2, 3, 4, 6) for _ in range(5)] + [5 + 10 * k for k in range(len(INT_VARIANTS))]
+# (form 7, narrow / byte-swapped dtypes of the value's own kind: 8 in 100, taken from the share of the plain forms)
+AF = st.sampled_from([f for f in (False, True, False, True, 2, 3, 4, 6) for _ in range(9)] + [5 + 10 * k for k in range(len(INT_VARIANTS))] * 2
                      + [7 + 10 * k for k in range(len(FLT_VARIANTS))] * 2)
 # order of the reads after a step (number of a permutation of READS; 0 = the original order) and per-type reads left out
 RD = FD({'o': st.one_of(J(0), I(0, NPERM - 1), I(0, NPERM - 1)), 'skip': st.one_of(J(0), J(0), J(0), I(0, 63), J(63), J(63))})
@@ -1775,30 +1824,33 @@ OPS = {
     'extend': FD({'op': J('extend'), 'via': st.sampled_from(['atoms', 'system']), 'what': st.sampled_from(['int', 'atoms', 'atoms']),
                   'count': I(0, 3), 'same': st.sampled_from([False, False, True]), 'pbits': I(0, 1023), 'vals': VALS, 'aslist': AF,
                   'tmax': TMAX, 'scale': st.sampled_from([False, False, False, True]), 'symbols': st.one_of(st.none(), st.none(), SYMS),
-                  'safecopy': B, 'mut': MUT, 'vm': VM, 'eq': st.sampled_from([0, 0, 0, 0, 1, 2])}),
+                  'safecopy': B, 'mut': MUT, 'vm': VM, 'eq': st.sampled_from([0, 0, 0, 0, 0, 0, 0, 0, 1, 2])}),
     'setitem': FD({'op': J('setitem'), 'via': st.sampled_from(['atoms', 'atoms', 'ix_atoms', 'ix_system', 'prop', 'sysprop', 'sysprop_scaled']),
                    'idx': IDX, 'vmode': VMODE, 'vals': VALS, 'aslist': AF, 'tmax': TMAX, 'reverse': B, 'mut': MUT, 'vm': VM,
                    'aid': st.sampled_from([False, False, False, True]), 'dbox': st.one_of(st.none(), I(0, 35))}),
     'setself': FD({'op': J('setself'), 'via': st.sampled_from(['atoms', 'ix', 'prop']), 'a': I(0, 11), 'b': I(0, 11), 'k': I(0, 11),
-                   'perm': st.one_of(st.none(), st.none(), PERM)}),
+                   'perm': st.one_of(st.none(), PERM)}),
     'ptype': FD({'op': J('ptype'), 'name': NAME, 'mode': st.sampled_from(['all', 'all', 'one', 'one', 'one', 'short', 'absent']),
                  't': I(0, 11), 'vals': VALS, 'aslist': AF, 'nptype': B, 'mut': MUT, 'vm': VM}),
     'symbols': FD({'op': J('symbols'), 'syms': st.one_of(SYMS, SYMS, st.sampled_from(['Al', 'Cu'])), 'astuple': B, 'mut': MUT}),
     'masses': FD({'op': J('masses'), 'masses': st.one_of(MASSES, MASSES, I(1, 240).map(lambda k: k / 4.0)), 'fit': st.sampled_from([True, True, False]),
                   'astuple': B, 'mut': MUT}),
     'pbc': FD({'op': J('pbc'), 'p': st.lists(B, min_size=3, max_size=3), 'form': st.sampled_from(['list', 'tuple', 'array']), 'mut': MUT}),
-    # classes A / B: a call on another object (operand / argument of an earlier operation, or a fresh independent one)
-    'side': FD({'op': J('side'), 'fresh': st.sampled_from([0, 0, 0, 1, 2]), 'k': I(0, 11), 'count': I(0, 5), 'pbits': I(0, 1023), 'name': NAME,
-                'act': I(0, 4), 'vals': VALS, 'tmax': TMAX}),
+
     'df': FD({'op': J('df'), 'via': st.sampled_from(['atoms', 'system', 'scaled'])}),
     'refuse': FD({'op': J('refuse'), 'which': st.sampled_from(['badlen', 'badlen', 'badlen', 'atype0', 'atype0', 'atype0', 'aid_index', 'aid_index_scaled',
                                                                'value_not_atoms', 'value_not_atoms_scaled', 'mismatch', 'mismatch', 'ix_not_atoms',
                                                                'extend_type', 'extend_int_scale', 'scale_type']),
                   'name': NAME, 'a': I(0, 11), 'vals': VALS, 'aslist': AF}),
 }
+# classes A / B: a call on another object (operand / argument of an earlier operation, or a fresh independent one); it rides on
+# one step in seven of any kind, after that step's operation, so that the mix of operations is what it was
+SIDE = FD({'op': J('side'), 'fresh': st.sampled_from([0, 0, 0, 1, 2]), 'k': I(0, 11), 'count': I(0, 5), 'pbits': I(0, 1023), 'name': NAME,
+           'act': I(0, 4), 'vals': VALS, 'tmax': TMAX})
+SIDE_OR_NOT = st.one_of(*([st.none()] * 6 + [SIDE]))
 WEIGHTS = {'set': 4, 'setidx': 5, 'scaled_set': 2, 'get': 3, 'getatoms': 4, 'extend': 4, 'setitem': 4, 'setself': 2, 'ptype': 4,
-           'symbols': 1, 'masses': 1, 'pbc': 1, 'df': 1, 'refuse': 2, 'side': 2}
-OP = st.one_of(*[st.tuples(OPS[k], RD).map(lambda t: dict(t[0], rd=t[1])) for k, w in WEIGHTS.items() for _ in range(w)])
+           'symbols': 1, 'masses': 1, 'pbc': 1, 'df': 1, 'refuse': 2}
+OP = st.one_of(*[st.tuples(OPS[k], RD, SIDE_OR_NOT).map(lambda t: dict(t[0], rd=t[1], side=t[2])) for k, w in WEIGHTS.items() for _ in range(w)])
 INIT = FD({'n': I(0, 5), 'ctor': st.sampled_from(['natoms', 'bcast', 'lists', 'lists', 'arrays', 'arrays', 'prop']), 'props': I(0, 1023),
            'vals': VALS, 'box': I(0, 3), 'pbc': st.lists(B, min_size=3, max_size=3), 'scale': st.sampled_from([False, False, True]),
            'symbols': st.one_of(st.none(), SYMS, st.sampled_from(['Al', 'Cu'])), 'masses': st.one_of(st.none(), MASSES), 'safecopy': B,
@@ -1979,7 +2031,17 @@ CLAUSES = [
                       'rd:quiet_after_inplace_growth': 0.08, 'pad_uncertain': 0.012,
                       'af:int': 0.22, 'af:int:narrow': 0.16, 'af:int:unsigned': 0.1, 'af:int:bool': 0.02, 'af:int:pyint': 0.035,
                       'af:int:int64': 0.045, 'af:int:float_as_not64': 0.16, 'scaled_atoms_set_inttyped': 0.012,
-                      'scaled_atoms_set_int_not64': 0.009, 'af:noncontig': 0.14, 'af:npscalar': 0.2, 'af:readonly': 0.19, 'af:tuple': 0.2},
+                      'scaled_atoms_set_int_not64': 0.009, 'af:noncontig': 0.14, 'af:npscalar': 0.2, 'af:readonly': 0.19, 'af:tuple': 0.2,
+                      # cross-pollinated classes (half of the smallest share seen at seeds 1-4)
+                      'ledger': 0.4, 'ledger:array': 0.33, 'ledger:atoms': 0.39, 'ledger:list': 0.078, 'ledger:across_objects': 0.35,
+                      'side:operand': 0.33, 'side:write': 0.31, 'side:defaults': 0.33,
+                      'in_unchanged': 0.5, 'mut:in': 0.39, 'mut:in:atoms': 0.23, 'mut:reuse': 0.09,
+                      'af:narrow': 0.12, 'af:narrow:float32': 0.04, 'af:narrow:float16': 0.017, 'af:narrow:bigendian': 0.1,
+                      'sd': 0.11, 'sd:bigendian': 0.055, 'sd:native': 0.047, 'refuse:atype0:typed': 0.029, 'refuse:atype0:unsigned': 0.006,
+                      'vm:tiny': 0.19, 'vm:dec': 0.19, 'dec:8': 0.069, 'dec:8:scaled': 0.013, 'scaled_get_rowwise': 0.017, 'near:box': 0.033,
+                      'idx:perm': 0.23, 'idx:perm:identity': 0.066, 'idx:perm:reverse': 0.061, 'idx:perm:cyclic': 0.069,
+                      'selfset_perm': 0.1, 'selfset_perm_moves': 0.042, 'ext:same_order': 0.035, 'ext:reversed_order': 0.03,
+                      'opt:aid_scaled_set': 0.054, 'opt:aid_atoms_set': 0.05, 'opt:aid_atoms_set_scaled': 0.0148},
            desc='edit histories on one System/Atoms pair against a record-per-atom model: rectangular, row-aligned, model-equal, '
                 'atype >= 1, symbols/masses long enough after every step; copying accessors do not alias; operands of '
                 'new-object operations unchanged; refusals leave the state unchanged'),
